@@ -79,6 +79,14 @@ CHECKS.update({
             "DESIGN.md §2 C11"),
 })
 
+CHECKS.update({
+    "C08": ("translation_validation",
+            "translation validation on observed executions: the exact code string Fandango executes (captured at FandangoSpec.run_code / constraint, generator and bound expressions) is compared, as AST, with CPython's parse of the source text",
+            "Programs: construct table, every combination of parameter kinds for def and lambda, ~8000 statements harvested from the repository's and the standard library's Python files, sub-expressions spliced with symbol references in constraint / generator / repetition-bound positions. Every AST difference must be explained by a listed finding.",
+            "CPython's ast module is the reference; rejection with an error is allowed by the statement and only counted.",
+            "DESIGN.md §2 C08"),
+})
+
 NOT_YET = {}
 
 
